@@ -112,3 +112,7 @@ func VerifNewHandle(leaf *certs.Certificate) *Handle {
 	ss.handle = h
 	return h
 }
+
+// VerifConfig returns the server's configuration (callbacks included), so that a
+// harness can serve the callbacks a real hop server builds over another socket.
+func (s *Server) VerifConfig() ServerConfig { return s.config }
